@@ -5,6 +5,7 @@ from __future__ import annotations
 from harness.check import Component
 
 LEAN_TARGETS = ["Aiortc.Props.C17"]
+DRIVERS = ["Serial"]
 ASSUMPTIONS = [
     "serial laws are stated for operands in the wire range [0, 2^16) resp. [0, 2^32); antisymmetry excludes pairs exactly half the space apart (as the property does)",
 ]
